@@ -269,6 +269,11 @@ func (w *World) instrWrites(in ssa.Instruction, ws *WriteSet, g *Gen) {
 	case *ssa.Send, *ssa.Select:
 		w.interferenceWrites(ws, g)
 		ws.Recvs = true
+		if _, isSend := in.(*ssa.Send); isSend {
+			if _, ok := w.specs.Ghosts["sends"]; ok {
+				ws.add("G.sends", SInt)
+			}
+		}
 		if _, ok := w.specs.Ghosts["slept"]; ok {
 			ws.add("G.slept", SInt)
 			ws.add("G.lastWait", SInt)
